@@ -130,26 +130,27 @@ def rule_r2(ctx):
         ctx.fail(r, g, "default does not close", g.line, "unknown / reserved opcodes do not lead to ws_close")
     # state requirements
     inmsg_true = G.cond_edges(g, lambda n: n.get("k") == "mem" and n["f"] == "inmsg", want_nonzero=True)
-    for name, want_in in (("WS_CONT", True), ("WS_BINARY", False)):
+    apps = [s_ for s_ in g.calls("nni_list_append") if "rxq" in show(g.expand(s_.node["args"][0]))]
+    G.need_sites(apps, "append of the received frame to rxq", g)
+    for name, want_in in (("WS_CONT", True), ("WS_BINARY", False), ("WS_TEXT", False)):
         bid = cases.get(enum[name])
-        apps = [s for s in g.calls("nni_list_append") if "rxq" in show(g.expand(s.node["args"][0]))]
-        # appends reachable from this case label before leaving the switch
-        mine = [s for s in apps if (s.b, s.i) in g.reach((bid, 0), blocked=lambda b, i, e: False) and
-                not any((s.b, s.i) in g.reach((ob, 0)) and ob != bid and enum.get(name) is not None and False for ob in cases.values())]
-        ok = False
-        for s in mine:
-            cut = {b: (1 - k if want_in else k) for b, k in inmsg_true.items()}
-            # the append of this case is not reachable from the case label through the wrong-state edge
-            seen = g.reach((bid, 0), edge_ok=lambda b, k: not (b in inmsg_true and k == (inmsg_true[b] if not want_in else 1 - inmsg_true[b])))
-            first = min(mine, key=lambda x: abs(x.b - bid))
-            ok = True
-            if (first.b, first.i) not in seen:
-                ok = False
-            break
-        if ok:
+        if bid is None:
+            continue
+        # the frame is queued only over the edge on which inmsg has the required value: with those edges removed no
+        # append may be reachable from this case label
+        right = {b: (k if want_in else 1 - k) for b, k in inmsg_true.items()}
+        seen = g.reach((bid, 0), edge_ok=lambda b, k: not (b in right and k == right[b]))
+        bad = [s_ for s_ in apps if (s_.b, s_.i) in seen]
+        reachable = [s_ for s_ in apps if (s_.b, s_.i) in g.reach((bid, 0))]
+        if reachable and not bad:
             r.ob(g, "%s accepted only with inmsg == %s" % (name, want_in))
         else:
-            ctx.fail(r, g, "%s state test" % name, g.line, "%s frames are queued without the required inmsg == %s test" % (name, want_in))
+            ctx.fail(r, g, "%s state test" % name, (bad[0].line if bad else g.line),
+                     "%s frames are queued without the required inmsg == %s test: %s" % (
+                         name, want_in, "a new data message started inside an unfinished fragmented one is merged into it"
+                         if not want_in else "a continuation without a message in progress is accepted"),
+                     g.path_lines(g.find_path((bid, 0), lambda b, i: bad and (b, i) == (bad[0].b, bad[0].i),
+                                              edge_ok=lambda b, k: not (b in right and k == right[b]))) if bad else None)
     for name in ("WS_PING", "WS_PONG"):
         bid = cases.get(enum[name])
         big = G.cmp_edges(g, lambda l: G.field_is(l, "len"), {">": 0, "<=": 1}, rhs_match=lambda x: const_of(x) == 125)
@@ -382,6 +383,38 @@ def rule_r11(ctx):
     numconv.check(ctx, r, fns, 2)
 
 
+def rule_r12(ctx):
+    r = ctx.rule("C16.R12", "T1", "chunk-size lines start with a digit: the decoder enters the state that accumulates the size (CS_LEN) only "
+                 "on the edge of the first-character test (isalnum / isxdigit) of the CS_INIT case -- a transition into CS_LEN from "
+                 "anywhere else lets an empty or extension-only size line pass as the terminating zero chunk", floor=1)
+    prog = ctx.prog
+    n = 0
+    for f in prog.fns_in("supplemental/http/http_chunk.c"):
+        if f.cfg_failed:
+            continue
+        stores = [t for t in f.assigns() if t.node["lhs"].get("k") == "mem" and t.node["lhs"].get("f") == "cl_state" and
+                  (lambda e: e is not None and e.get("k") == "enum" and e.get("n") == "CS_LEN")(f.expand(t.node["rhs"]))]
+        if not stores:
+            continue
+        ok_edges = {}
+        for bid, k, atom, val in G.edge_facts(f):
+            # the ctype tests are macros in glibc: recognise the call form and the expansion (macro provenance)
+            ctype = ("isalnum", "isxdigit", "isdigit")
+            if val and ((atom.get("k") == "call" and atom.get("fn") in ctype) or any(m in ctype for m in (atom.get("m") or ()))):
+                ok_edges[bid] = k
+        for t in stores:
+            n += 1
+            if ok_edges and G.dominated(f, (t.b, t.i), ok_edges):
+                r.ob(f, "cl_state = CS_LEN line %s: after the first-character test" % t.line)
+            else:
+                ctx.fail(r, f, "CS_LEN entered without the first-character test", t.line,
+                         "%s sets cl_state = CS_LEN at line %s on a path that did not test the character with isalnum/isxdigit: "
+                         "the next size line may be empty (or start with ';') and is then read as size 0, the end of the body"
+                         % (f.name, t.line))
+    if n < 1:
+        raise AnalysisBroken("no transition into CS_LEN found in http_chunk.c")
+
+
 def run(ctx):
     ctx.guard(rule_r1)
     ctx.guard(rule_r2)
@@ -395,3 +428,4 @@ def run(ctx):
         if rr.id == "C11.R7":
             rr.id = "C16.R8"
     ctx.guard(rule_r11)
+    ctx.guard(rule_r12)
